@@ -137,6 +137,15 @@ def control_field_sweep(cases, thorough, seed):
             for a, b in wide:
                 out.append(dict(keep, frames=[{"bytes": [a, b, 0], "trunc": False}] + c["frames"][1:], fault="cf-sweep", chunk=0))
                 out.append(dict(keep, frames=[c["frames"][0], {"bytes": [a, b, 0], "trunc": False}] + c["frames"][1:], fault="cf-sweep-reply", chunk=0))
+    # the command's own bytes coming back (an echoing line) in front of, and in place of, the acknowledgement: a frame like any other
+    # that is not the acknowledgement
+    for cmd, c in sorted(base.items()):
+        if c.get("req"):
+            keep = {k: v for k, v in c.items() if k not in ("frames", "log", "left")}
+            echo = {"bytes": c["req"], "trunc": False}
+            out.append(dict(keep, frames=[echo] + c["frames"], fault="echo", chunk=0))
+            out.append(dict(keep, frames=[echo] + c["frames"][1:], fault="echo", chunk=0))
+            out.append(dict(keep, frames=[c["frames"][0], echo] + c["frames"][1:], fault="echo", chunk=0))
     # an intermediate status with every status byte (a one-byte field: exhaustive), then a frame that cannot be interpreted (foreign,
     # malformed, NACK, cut short) or the rest of the fault-free script: what the terminal displays does not change the discipline
     faults = [[{"bytes": [4, 13, 0], "trunc": False}], [{"bytes": [6, 15, 2, 41, 0], "trunc": False}], [{"bytes": [0x84, 0x9c, 0], "trunc": False}],
@@ -194,6 +203,7 @@ def run_sequence_check(chk, prefix, what):
             c["req"] = opts[k % len(opts)]
     # the connection takes a write whole, or one / two bytes of it at a time (rotating over the cases)
     for k, c in enumerate(cases):
+        c["end_kind"] = [0, 0, 1, 0, 2, 3, 0, 4, 5][k % 9]   # behind the script: end of file, or a reset / abort / broken pipe / time-out
         c["wchunk"] = [0, 0, 0, 1, 2][k % 5]
         c["chunk"] = [0, 0, 1, 0, 3, 0, 64][k % 7]          # ... and hands out what it has whole or in pieces
         if k % 11 == 3:
